@@ -200,7 +200,8 @@ class SymArray(_np.ndarray):
         if Sym.HASHTRACE is not None:
             for x in self.flat:
                 Sym.HASHTRACE.append(core.toz(x))
-        return b'sym'
+            return b'sym'
+        return SymBytes([core.toz(x) for x in self.flat])
 
     def tolist(self):
         return _np.asarray(self).tolist()
@@ -214,6 +215,48 @@ class SymArray(_np.ndarray):
 
     def __deepcopy__(self, memo):
         return self.copy()
+
+
+class SymBytes:
+    """stands for the raw bytes of symbolic numbers.  Two byte strings are equal (and hash equal) exactly when all
+    their numbers are equal; hash() resolves that by forking against the byte strings hashed earlier on this path
+    (accidental hash collisions of unequal byte strings are outside the model)."""
+
+    def __init__(self, terms):
+        self.terms = list(terms)
+
+    def __add__(self, o):
+        if isinstance(o, SymBytes):
+            return SymBytes(self.terms + o.terms)
+        if isinstance(o, bytes):
+            return SymBytes(self.terms + [z3.IntVal(b) for b in o])
+        return NotImplemented
+
+    def __radd__(self, o):
+        if isinstance(o, bytes):
+            return SymBytes([z3.IntVal(b) for b in o] + self.terms)
+        return NotImplemented
+
+    def _same(self, o):
+        if len(self.terms) != len(o.terms):
+            return False
+        conds = []
+        for a, b in zip(self.terms, o.terms):
+            a, b = core._coerce(a, b)
+            conds.append(a == b)
+        return bool(SymBool(z3.And(*conds))) if conds else True
+
+    def __eq__(self, o):
+        return isinstance(o, SymBytes) and self._same(o)
+
+    def __hash__(self):
+        reg = ENG.records.setdefault('symbytes', [])
+        for other, hid in reg:
+            if self._same(other):
+                return hid
+        hid = 1000003 + len(reg)
+        reg.append((self, hid))
+        return hid
 
 
 class _SymData:
@@ -242,6 +285,19 @@ def wrap(r):
     if isinstance(r, list):
         return [wrap(x) for x in r]
     return r
+
+
+def _defloat(x):
+    """an object array that holds no symbolic value goes back to a float array before real numpy sees it"""
+    if isinstance(x, _np.ndarray) and x.dtype == object and not has_sym(x):
+        try:
+            return _np.asarray(x.tolist() if isinstance(x, SymArray) else x, dtype=float)
+        except (TypeError, ValueError):
+            try:
+                return _np.asarray(x.tolist(), dtype=complex)
+            except (TypeError, ValueError):
+                return x
+    return x
 
 
 _FLOATY = (float, complex, _np.float64, _np.complex128, None, 'float', 'complex')
@@ -305,7 +361,7 @@ class NPProxy:
 
         def call(*a, **kw):
             if not (any(has_sym(x) for x in a) or any(has_sym(x) for x in kw.values())):
-                return f(*a, **kw)
+                return f(*[_defloat(x) for x in a], **{k_: _defloat(v) for k_, v in kw.items()})
             try:
                 r = f(*a, **kw)
             except core.Abort:
@@ -434,7 +490,7 @@ class NPProxy:
             if isinstance(a, (Sym, SymBool)):
                 return _truth(a)
             return core.And(*[_truth(x) for x in _np.asarray(a, dtype=object).flat])
-        return _np.all(a, axis=axis, **k)
+        return _np.all(_defloat(a), axis=axis, **k)
 
     def any(self, a, axis=None, **k):
         if has_sym(a):
@@ -443,7 +499,7 @@ class NPProxy:
             if isinstance(a, (Sym, SymBool)):
                 return _truth(a)
             return core.Or(*[_truth(x) for x in _np.asarray(a, dtype=object).flat])
-        return _np.any(a, axis=axis, **k)
+        return _np.any(_defloat(a), axis=axis, **k)
 
     def isclose(self, a, b, rtol=1e-5, atol=1e-8, **k):
         if has_sym(a) or has_sym(b):
@@ -454,7 +510,7 @@ class NPProxy:
             for i in _np.ndindex(*aa.shape):
                 out[i] = _isclose1(aa[i], bb[i], rtol, atol)
             return out.view(SymArray)
-        return _np.isclose(a, b, rtol=rtol, atol=atol, **k)
+        return _np.isclose(_defloat(a), _defloat(b), rtol=rtol, atol=atol, **k)
 
     def allclose(self, a, b, rtol=1e-5, atol=1e-8, **k):
         if has_sym(a) or has_sym(b):
@@ -462,7 +518,7 @@ class NPProxy:
             if isinstance(r, SymBool):
                 return r
             return core.And(*[x for x in r.flat])
-        return _np.allclose(a, b, rtol=rtol, atol=atol, **k)
+        return _np.allclose(_defloat(a), _defloat(b), rtol=rtol, atol=atol, **k)
 
     def array_equal(self, a, b, **k):
         if has_sym(a) or has_sym(b):
